@@ -293,6 +293,9 @@ func main() {
 	}
 	sort.Strings(order)
 	violations := 0
+	replays := 0
+	replayed := map[string]string{}
+	replayedOK := map[string]bool{}
 	knownHit := 0
 	discharged := 0
 	var oblList []map[string]interface{}
@@ -317,14 +320,42 @@ func main() {
 				violations++
 				rp := filepath.Join(outDir, sanitize(s.Name)+".txt")
 				o := s.Failed[0]
+				for _, f := range s.Failed {
+					if f.Result == "sat" { // prefer a path query for which the solver produced a counterexample
+						o = f
+						break
+					}
+				}
 				model := ""
 				if o.Result == "sat" {
 					model = x.modelFor(o, scfg)
 				}
 				writeReplay(rp, *prop, s.Name, s.Desc, s.Pos, o, model, len(s.Failed), s.Queries)
 				suffix := " no-failing-input-found"
-				if ok := x.tryReplay(*repo, *verif, *prop, s.Name, o, model, rp); ok {
-					suffix = ""
+				fam := ""
+				if f := x.replayFamilyFor(*verif, strings.SplitN(o.Fn, "$", 2)[0]); f != nil {
+					fam = f.Template
+				}
+				switch {
+				case os.Getenv("VERIF_NO_REPLAY") != "":
+					appendFile(rp, "\n--- replay ---\nreplay switched off (VERIF_NO_REPLAY)\n")
+				case fam != "" && replayed[fam] != "":
+					// one run of a harness explores the real function against all its oracles: reuse it
+					appendFile(rp, "\n--- replay ---\nsame harness as "+replayed[fam]+" (one run covers every oracle of this function family)\n")
+					if replayedOK[fam] {
+						suffix = ""
+					}
+				case replays >= 3:
+					appendFile(rp, "\n--- replay ---\nreplay budget of this run used up (3 harness runs)\n")
+				default:
+					replays++
+					ok := x.tryReplay(*repo, *verif, *prop, s.Name, o, funcs[strings.SplitN(o.Fn, "$", 2)[0]], scfg, rp)
+					if fam != "" {
+						replayed[fam], replayedOK[fam] = rp, ok
+					}
+					if ok {
+						suffix = ""
+					}
 				}
 				printed = append(printed, fmt.Sprintf("VIOLATION property=%s replay=%s%s", *prop, rp, suffix))
 			}
